@@ -67,7 +67,8 @@ def r18_8_no_carry_over(chk):
     if gen is None:
         raise AnalysisError("DLISFile.generate_logical_records not found")
     chk.consult(gen)
-    gs = chk.terms.inline(gen, 2, stop=lambda h: h.cls is not gen.cls or h.name == "__init__")
+    gs = chk.terms.inline(gen, 2, stop=lambda h: h is plan.func or h.name == "__init__" or
+                          h.cls not in (gen.cls, plan.func.cls))
     unique_name = sum(1 for h in ix.functions.values() if h.name == plan.func.name) == 1
     calls = [c for c in gs.all_calls() if (plan.func in gs.calls.get(c, ()) and c in gs.precise) or
              (unique_name and call_name(c) == plan.func.name)]
